@@ -7,7 +7,7 @@ use serde_json::{json, Value};
 pub const DEF: PropDef = PropDef {
     id: "C12",
     level: "exploration",
-    rule: "complete enumeration of all strings up to the length bound over an 18-symbol alphabet tuned to position bookkeeping (quotes, parentheses, LF, CR, apostrophe, the letters of 's / 're / 'n', a 2-byte letter, digit, dot, underscore, space, NBSP, ignorable punctuation) plus all glued/spaced sequences of multi-line strings, comments, suffixes, words, numbers and newlines; every token of the real lexer is checked structurally against the source; non-trivial = at least 2 tokens, or a token spanning a line break, or a suffix token; distinct = distinct text",
+    rule: "complete enumeration of all strings up to the length bound over a 20-symbol alphabet tuned to position bookkeeping (quotes, parentheses, LF, CR, apostrophe, the letters of 's / 're / 'n', a 2-byte letter, digit, dot, underscore, space, NBSP, ignorable punctuation) plus all glued/spaced sequences of multi-line strings, comments, suffixes, words, numbers and newlines; every token of the real lexer is checked structurally against the source; non-trivial = at least 2 tokens, or a token spanning a line break, or a suffix token; distinct = distinct text",
     assumptions: &[
         "the oracle is structural (slices, gaps, line/column arithmetic recomputed from the source), it does not know which alias maps to which keyword (C02's business)",
         "tokens whose spelling ends in a line break are exempt from the end-position rule, as the property states",
@@ -16,9 +16,9 @@ pub const DEF: PropDef = PropDef {
     exhaustive: true,
 };
 
-pub const ALPHABET: &[&str] = &["\"", "(", ")", "\n", "\r", "'", "s", "r", "e", "n", "a", "é", "1", ".", "_", " ", "\u{a0}", "!"];
+pub const ALPHABET: &[&str] = &["\"", "(", ")", "\n", "\r", "'", "s", "r", "e", "n", "a", "é", "1", ".", "_", " ", "\u{a0}", "!", "İ", "€"];
 
-pub const PIECES: &[&str] = &["\"a\nb\"", "(a\nb)", "'s", "'re", "x", "1", "\n", "\"u", "é", ".", "\"\"", "(c)", "'n'", "it's"];
+pub const PIECES: &[&str] = &["\"a\nb\"", "(a\nb)", "'s", "'re", "x", "1", "\n", "\"u", "é", ".", "\"\"", "(c)", "'n'", "it's", "İa's", "ẞa's", "Ka're", "€"];
 
 pub struct C12 {
     fams: Vec<(String, Space<String>)>,
